@@ -814,7 +814,18 @@ def run_tiny(chk, plugins, tier, prop):
                 ) % (l.meta["family"], l.meta["plugin"], tuple(flags))
                 chk.violation("%s plugin on a tiny evolved metamodel (%s %r): %s" % (l.meta["plugin"], l.meta["family"], tuple(flags), "; ".join(problems)[:400]), {"kind": "python", "code": code, "site": site, "args": r.args, "metamodel": doc})
             else:
-                chk.harness_error("counterexample for %s did not reproduce" % lid)
+                # state kept between two runs of the plugin in one process?  (see vlib/histreplay.py)
+                from vlib import histreplay
+
+                fam, plug = l.meta["family"], l.meta["plugin"]
+                cands = ({"flags": list(f)} for f in __import__("itertools").product(*[range(n) for n in FAMILY_RANGES[fam]]))
+                call = "(lambda t: (not t[0], '; '.join(t[0])))(E.tiny_explain(%r, %r, tuple(a['flags'])))" % (fam, plug)
+                found = histreplay.search("from props import evolve as E", call, {"flags": list(flags)}, cands, limit=24)
+                if found:
+                    pred, detail, hcode = found
+                    chk.violation("%s plugin on a tiny evolved metamodel (%s %r) after it ran for %r in the same process (state kept between runs): %s" % (plug, fam, tuple(flags), tuple(pred["flags"]), detail[:400]), {"kind": "python", "code": hcode, "site": site, "args": r.args, "after": pred})
+                else:
+                    chk.harness_error("counterexample for %s did not reproduce" % lid)
     return ls
 
 
